@@ -4,6 +4,8 @@ from __future__ import annotations
 
 import math
 
+import numpy as np
+
 from hypothesis import strategies as st
 
 from vf import gens
@@ -50,6 +52,9 @@ def strategy_(draw):
         "tpc": draw(st.floats(-120.0, 0.0)),
         "ppc": draw(st.floats(550.0, 800.0)),
         # standard conditions: the defaults (60 F, 14.7 psia) or another common pressure / temperature base
+        # the form in which the pressure is handed to the derivative functions: Python / numpy scalars of either kind
+        # and 0-d arrays (elements of an integer pressure column, loop variables over np.arange, ...)
+        "p_form": draw(st.sampled_from(["float", "float", "float", "int", "np.int64", "np.int32", "np.float64", "np.float32", "0d-int64", "0d-float64"])),
         "std": draw(st.one_of(st.none(), st.tuples(st.sampled_from([60.0, 59.0, 68.0, 32.0]), st.sampled_from([14.7, 14.65, 14.696, 14.73, 15.025])))),
     }
 
@@ -106,6 +111,29 @@ def check_case(case) -> Result:
         p = 15.0 + case["frac"] * (pb - 15.0) * (1 - 1e-12)
     else:
         p = 15.0 + case["frac"] * (2.5 * pb - 15.0)
+    form = case.get("p_form", "float")
+    if form in ("int", "np.int64", "np.int32", "0d-int64") and where not in ("pb", "pb-", "pb+"):
+        q = float(round(p))
+        if q >= 15 and (q < pb) == (p < pb):
+            p = q
+        else:
+            form = "float"
+    elif form in ("int", "np.int64", "np.int32", "0d-int64"):
+        form = "float"
+    if form == "np.float32":
+        q = float(np.float32(p))
+        # within a float32 ulp of p_b the library's own comparison (made in single precision for a float32 scalar) and
+        # the float64 reference may legitimately fall on different sides: keep clear of it
+        if abs(q - pb) > 1e-5 * pb and (q < pb) == (p < pb):
+            p = q
+        else:
+            form = "float"
+    res.labels["p_form"] = form
+
+    def given(x):
+        """The pressure x in the generated argument form."""
+        return {"float": float, "int": lambda v: int(v), "np.int64": lambda v: np.int64(v), "np.int32": lambda v: np.int32(v), "np.float64": np.float64, "np.float32": np.float32, "0d-int64": lambda v: np.array(int(v), dtype=np.int64), "0d-float64": lambda v: np.array(v, dtype=np.float64)}[form](x)
+
     res.labels["where"] = "below" if p < pb else ("at" if p == pb else "above")
     res.nontrivial = p < pb or where in ("pb", "pb+", "pb-")
 
@@ -123,7 +151,7 @@ def check_case(case) -> Result:
         res.check("C13/dBo-dRs", abs(got - want), tol * abs(want), f"db_o_dgor_Standing(T={T!r},api={api!r},sg={sg!r},Rs={r!r})={got!r} AD={want!r};")
 
     # ---- dRs/dp ------------------------------------------------------------------------------------
-    got = float(lib("dgor_dpressure_Standing", O.dgor_dpressure_Standing, T, p, api, sg, gor))
+    got = float(lib("dgor_dpressure_Standing", O.dgor_dpressure_Standing, T, given(p), api, sg, gor))
     if p >= pb:
         if got != 0.0:
             res.bad("C13/dRs-dp-zero-above", f"dgor_dpressure_Standing={got!r} at p={p!r} >= p_b={pb!r} oil={o}")
@@ -134,7 +162,9 @@ def check_case(case) -> Result:
             want, tol = (out.d if isinstance(out, Dual) else 0.0), 1e-12
         else:
             want, tol = _parent_derivative(res, "solution_gor_Standing", lambda q: O.solution_gor_Standing(T, q, api, sg, gor), p)
-        res.check("C13/dRs-dp", abs(got - want), tol * abs(want), f"dgor_dpressure_Standing(p={p!r}) = {got!r} AD of Rs={want!r} oil={o};")
+        if form == "np.float32":
+            tol = max(tol, 1e-6)  # single-precision argument: the function may work in single precision
+        res.check("C13/dRs-dp", abs(got - want), tol * abs(want), f"dgor_dpressure_Standing(p={p!r} as {form}) = {got!r} AD of Rs={want!r} oil={o};")
 
     # ---- all-pressure oil compressibility ----------------------------------------------------------
     tpc, ppc = case["tpc"], case["ppc"]
@@ -143,13 +173,13 @@ def check_case(case) -> Result:
         return res
     std = tuple(case["std"]) if case.get("std") else (60, 14.7)
     if case.get("std"):
-        co = float(lib("oil_compressibility_Standing", O.oil_compressibility_Standing, T, p, api, sg, gor, tpc, ppc, temperature_standard=std[0], pressure_standard=std[1]))
+        co = float(lib("oil_compressibility_Standing", O.oil_compressibility_Standing, T, given(p), api, sg, gor, tpc, ppc, temperature_standard=std[0], pressure_standard=std[1]))
         res.labels["standard_conditions"] = "non-default"
     else:
-        co = float(lib("oil_compressibility_Standing", O.oil_compressibility_Standing, T, p, api, sg, gor, tpc, ppc))
+        co = float(lib("oil_compressibility_Standing", O.oil_compressibility_Standing, T, given(p), api, sg, gor, tpc, ppc))
     if p >= pb:
         want = float(lib("oil_compressibility_undersat_Spivey", O.oil_compressibility_undersat_Spivey, T, p, api, sg, gor))
-        res.check("C13/co-undersaturated", abs(co - want), 1e-13 * abs(want), f"oil_compressibility_Standing={co!r} Spivey={want!r} at p={p!r} >= p_b;")
+        res.check("C13/co-undersaturated", abs(co - want), (1e-5 if form == "np.float32" else 1e-13) * abs(want), f"oil_compressibility_Standing={co!r} Spivey={want!r} at p={p!r} >= p_b;")
     else:
         bg = float(lib("b_factor_DAK", G.b_factor_DAK, T, p, tpc, ppc, std[0], std[1]))
         dbo = float(lib("db_o_dgor_Standing", O.db_o_dgor_Standing, T, api, sg, rs_p))
@@ -161,7 +191,7 @@ def check_case(case) -> Result:
         res.check(
             "C13/co-saturated-combination",
             err,
-            1e-11 * max(abs(num), abs(bg * drs)),
+            (1e-5 if form == "np.float32" else 1e-11) * max(abs(num), abs(bg * drs)),
             f"c_o={co!r}: c_o*B_ob={co * bob!r}, c_o*B_o(p)={co * bop!r}, (B_g - dBo/dRs) dRs/dp={num!r} at p={p!r} oil={o} tpc={tpc!r} ppc={ppc!r};",
         )
     return res
